@@ -274,32 +274,100 @@ func (c *Ctx) NAME(rule string) []report.Obligation {
 		out = append(out, anchorViolation(rule+"-3", "cli.WithName$1"))
 	}
 	// ---- ENV: .env lookup consults the current environment before earlier files
-	if f := c.P.Func("dotenv.GetEnvFromFile$1"); f != nil {
-		var cur, prev *ssa.Lookup
-		for _, b := range f.Blocks {
-			for _, in := range b.Instrs {
-				if lk, ok := in.(*ssa.Lookup); ok {
-					bd := c.bindingOfLoad(lk.X)
-					if _, isParam := bd.(*ssa.Parameter); isParam {
-						cur = lk
-					} else if bd != nil {
-						prev = lk
+	if host := c.P.Func("dotenv.GetEnvFromFile"); host != nil {
+		// the lookup handed to the parser: a closure literal, or the result of a constructor that returns one
+		var f *ssa.Function
+		outer := map[*ssa.FreeVar]ssa.Value{}
+		for _, cs := range callSites(host, func(com *ssa.CallCommon) bool {
+			cal := com.StaticCallee()
+			return cal != nil && strings.HasPrefix(c.P.FuncID(cal), "dotenv.") && len(com.Args) >= 2 && isLookupSig(com.Args[len(com.Args)-1].Type())
+		}) {
+			arg := cs.Common().Args[len(cs.Common().Args)-1]
+			if ct, ok := arg.(*ssa.ChangeType); ok {
+				arg = ct.X
+			}
+			switch x := arg.(type) {
+			case *ssa.MakeClosure:
+				f = x.Fn.(*ssa.Function)
+				for i, fv := range f.FreeVars {
+					outer[fv] = x.Bindings[i]
+				}
+			case *ssa.Call:
+				if g := x.Call.StaticCallee(); g != nil && c.P.InModule(g) {
+					for _, r := range returnsOf(g) {
+						rv := retValue(r, 0)
+						if ct, ok := rv.(*ssa.ChangeType); ok {
+							rv = ct.X
+						}
+						if mc, ok := rv.(*ssa.MakeClosure); ok {
+							f = mc.Fn.(*ssa.Function)
+							for i, fv := range f.FreeVars {
+								bv := mc.Bindings[i]
+								// a cell holding a parameter of the constructor, or the parameter itself
+								if al, isAl := bv.(*ssa.Alloc); isAl {
+									if cv := c.cellValue(al); cv != nil {
+										bv = cv
+									}
+								}
+								if pa, isP := bv.(*ssa.Parameter); isP {
+									for j, gp := range g.Params {
+										if gp == pa && j < len(x.Call.Args) {
+											bv = x.Call.Args[j]
+										}
+									}
+								}
+								outer[fv] = bv
+							}
+						}
 					}
 				}
 			}
 		}
-		good := cur != nil && prev != nil && prog.InstrDominates(cur, prev)
-		if good {
-			// the earlier-file lookup is reached only when the current environment does not define the key
-			good = factHolds(prev.Block(), func(cond ssa.Value, val bool) bool {
-				ex, ok := cond.(*ssa.Extract)
-				return ok && ex.Tuple == ssa.Value(cur) && ex.Index == 1 && !val
-			})
+		good := false
+		if f != nil {
+			fromParam := func(m ssa.Value) (bool, bool) {
+				if u, ok := m.(*ssa.UnOp); ok && u.Op == token.MUL {
+					m = u.X
+				}
+				fv, ok := m.(*ssa.FreeVar)
+				if !ok {
+					return false, false
+				}
+				ov := outer[fv]
+				if al, isAl := ov.(*ssa.Alloc); isAl {
+					if cv := c.cellValue(al); cv != nil {
+						ov = cv
+					}
+				}
+				_, isParam := ov.(*ssa.Parameter)
+				return isParam, ov != nil
+			}
+			var cur, prev *ssa.Lookup
+			for _, b := range f.Blocks {
+				for _, in := range b.Instrs {
+					if lk, ok := in.(*ssa.Lookup); ok {
+						isParam, known := fromParam(lk.X)
+						if isParam {
+							cur = lk
+						} else if known {
+							prev = lk
+						}
+					}
+				}
+			}
+			good = cur != nil && prev != nil && prog.InstrDominates(cur, prev)
+			if good {
+				// the earlier-file lookup is reached only when the current environment does not define the key
+				good = factHolds(prev.Block(), func(cond ssa.Value, val bool) bool {
+					ex, ok := cond.(*ssa.Extract)
+					return ok && ex.Tuple == ssa.Value(cur) && ex.Index == 1 && !val
+				})
+			}
 		}
-		out = append(out, verdict(good, rule+"-ENV", "GetEnvFromFile :: current environment before earlier files", c.P.Pos(f.Pos()),
+		out = append(out, verdict(good, rule+"-ENV", "GetEnvFromFile :: current environment before earlier files", c.P.Pos(host.Pos()),
 			"the lookup handed to the parser answers from the current environment and falls back to earlier files only when the key is absent there", "the .env lookup does not give precedence to the current environment"))
 	} else {
-		out = append(out, anchorViolation(rule+"-ENV", "dotenv.GetEnvFromFile$1"))
+		out = append(out, anchorViolation(rule+"-ENV", "dotenv.GetEnvFromFile"))
 	}
 	return out
 }
